@@ -475,6 +475,13 @@ theorem C07_deriv_l1 (x : CVec ℝ n) (hx : ∀ i, Cx.abs2 (x i) ≠ 0) :
     apply Cx.ext' <;> simp [Cx.abs, hasSqrt_real, neg_div]
   rwa [hf, hg] at h
 
+/-- the guards of the smoothness domain are necessary, not artefacts of the model: the l1 norm has NO
+    gradient (in the sense of C07) at any point with a zero coordinate, the l2 norm none at the origin -/
+theorem C07_smooth_domain_tight (x : CVec ℝ n) (i : Fin n) :
+    (x i = 0 → ¬ ∃ g, IsGradAt (Fn.l1 : Fn ℝ n).eval x g) ∧
+    (¬ ∃ g, IsGradAt (Fn.l2 : Fn ℝ n).eval (fun _ => 0) g) :=
+  ⟨fun hi => l1_not_grad x i hi, l2_not_grad i⟩
+
 /-- Huber norm, separable form, **everywhere** (threshold `|xᵢ| = δ` and `xᵢ = 0` included):
     gradient `xᵢ` inside, `δ xᵢ/|xᵢ|` outside -/
 theorem C07_deriv_huber_sep (δ : ℝ) (hδ : 0 < δ) (x : CVec ℝ n) :
